@@ -26,7 +26,7 @@ PATH_SECONDS = 10
 ORACLE_TIMEOUT = 5
 MAX_DECISIONS = 4000
 
-PREFIXES = ["", "return", "return;", "do return; end", "fn() return;", "def f() do return; end", "\"\\x", "'\\x", "\"\\", "0x", "0b", "0x1", "0b1", "1.", "1_", "1", "//a", "//",
+PREFIXES = ["", "a \"(\"", "f '['", "(a) '->'", "x \"!>\"", "a 'b'", "return", "return;", "do return; end", "fn() return;", "def f() do return; end", "\"\\x", "'\\x", "\"\\", "0x", "0b", "0x1", "0b1", "1.", "1_", "1", "//a", "//",
             "a.", "..", "<", "<<", ">>", "!", "-", "/", "#", "def ", "f(", "a ", "'", "\"", "0"]
 PATTERN_POOL = ["//a{99999999999999999999}//", "//(?i)(?-i)a//", "//" + "(" * 120 + ")" * 120 + "//", "//a{1,99999999999}//",
                 "//[//", "//(//", "//*//", "//\\//", "//(?P<//", "//a{2,1}//", "//a//", "//[a-z]+//",
